@@ -2,11 +2,11 @@
 
 D1 panic-freedom of dispatch, dispatch_async, Response::to_json, SharedStats::{get,to_json};
 D2 error-code sites: the constants, and which body constructs which code under which condition;
-D3 one response iff id: when the dispatcher returns None; how every Response is built (version, exactly one of result/error, id source);
-   the method is applied before the notification test;
+D3 one response iff id, for each dispatcher on its own: the formula under which it returns Some(..) is `line not empty & (unparsable | has id)`;
+   every parsed right-version request reaches a method handler, id or not; how every Response is built (version, exactly one of result/error, id source);
 D4 clamp and echo: every value that reaches the conn_timeout atomic lies in [1000, 60000]; the setter returns what it stored and the handler echoes it;
 D5 takes effect: setter -> atomic field -> snapshot() field -> get_status key, same field all along;
-D6 the stdin and socket entry points agree (same pre-checks, same codes, same handle_method call for non-subscription methods).
+D6 the stdin and socket entry points agree (same codes, same handle_method call for non-subscription methods; D3 is decided for each separately).
 """
 from ..absint import AbsInt, Entry, Num
 from ..ctx import bool_branches, is_call, is_field, result_arms, sname, some_of
@@ -72,10 +72,8 @@ def d2_error_codes(ctx):
     # which body may construct which code
     for st, codes in sorted(table.items()):
         base = st.split("::{closure")[0]
-        if st in (INNER, ASYNC):
-            want = {-32700}
-        elif base in (INNER, C + "dispatch_async") and "{closure" in st:
-            want = {-32600}
+        if st in (INNER, ASYNC) or (base in (INNER, C + "dispatch_async") and "{closure" in st):
+            want = {-32700, -32600}  # where each may be built is decided below
         elif st == HM:
             want = {-32601}
         elif base == HM:
@@ -88,33 +86,42 @@ def d2_error_codes(ctx):
             want = set()
         ok = set(codes) <= want and None not in codes
         ctx.chk.ob("D2", "%s constructs only %s" % (sname(st), sorted(want)), ok, "constructs %s" % sorted(codes, key=repr), key="D2:codes-by-body:%s" % st)
-    # conditions
+    # conditions, for each dispatcher on its own and whatever its control shape: a -32700 is built only where the line failed to parse,
+    # a -32600 only where the version member is not "2.0" (sites inside a closure count at the call that receives the closure)
+    from ..ctx import ok_of
     for e in entry:
         pa = ctx.pa(e)
         fa = pa.fa
-        arms = result_arms(e, fa, lambda x: is_call(strip_old(x), name_contains="serde_json::from_str") or
-                           (strip_old(x)[0] == "call" and "from_str" in strip_old(x)[1]))
-        err_blocks = [a["Err"] for (sb, a) in arms if "Err" in a]
-        cfg = ctx.cfg(e)
-        for (code, bb, loc, how) in _error_sites(ctx, e):
+        bd = pa.bdd
+        parsed = ok_of(pa, lambda x: is_call(x, name_contains="from_str"))
+        ver = pa.find(lambda a_: is_call(a_, name_contains="PartialEq") and any(is_field(x, "jsonrpc") for x in walk(a_)) and
+                      any(x[0] == "const" and x[1] == "2.0" for x in walk(a_)))
+        if not parsed or len(ver) != 1:
+            ctx.chk.missing("D2", "%s: atoms `from_str is Ok` / `jsonrpc ==/!= \"2.0\"`" % sname(e.stable), "%d/%d" % (len(parsed), len(ver)))
+            continue
+        P = parsed[0][1]
+        wrong = ver[0][1] if ver[0][0][1].endswith("::ne") else bd.NOT(ver[0][1])
+        sites = [(code, bb, loc) for (code, bb, loc, _h) in _error_sites(ctx, e)]
+        for (bb, t) in e.calls():
+            for arg in t["args"]:
+                for x in walk(fa.val_operand(arg, (bb, len(e.blocks[bb]["stmts"])))):
+                    if x[0] == "agg" and x[1] == "closure" and x[2] in ctx.w.fns:
+                        sites += [(code, bb, loc) for (code, _b, loc, _h) in _error_sites(ctx, ctx.w.fns[x[2]])]
+        n7 = n6 = 0
+        for (code, bb, loc) in sites:
+            if bb not in pa.pc_in:
+                continue
+            pc = pa.pc_block(bb)
             if code == -32700:
-                ok = any(cfg.dominates(eb, bb) for eb in err_blocks)
-                ctx.chk.ob("D2", "%s: -32700 only on the parse-failure arm" % sname(e.stable), ok, "Err arms %s, site bb%d" % (err_blocks, bb), key="D2:parse-error-site:%s" % e.stable, loc=loc)
-        # version: the INVALID_REQUEST closure is used only under jsonrpc != "2.0"
-        maps = [(bb, t) for (bb, t) in e.calls() if t["f"].get("path", "").endswith("Option::<T>::map") and
-                any(x[0] == "agg" and x[1] == "closure" and x[2] in ctx.w.fns and -32600 in [c for (c, _b, _l, _h) in _error_sites(ctx, ctx.w.fns[x[2]])]
-                    for x in walk(fa.val_operand(t["args"][1], (bb, len(e.blocks[bb]["stmts"])))))]
-        ne = bool_branches(e, fa, lambda v: is_call(v, name_contains="PartialEq") and any(is_field(x, "jsonrpc") for x in walk(v)) and
-                           any(x[0] == "const" and x[1] == "2.0" for x in walk(v)))
-        ok = len(maps) == 1 and len(ne) == 1
-        if ok:
-            sb, tt, ff = ne[0]
-            v = fa.val_operand(e.blocks[sb]["term"]["d"], (sb, len(e.blocks[sb]["stmts"])))
-            while v[0] == "not":
-                v = v[1]
-            wrong = tt if v[1].endswith("::ne") else ff
-            ok = cfg.dominates(wrong, maps[0][0])
-        ctx.chk.ob("D2", "%s: -32600 only when jsonrpc != \"2.0\"" % sname(e.stable), ok, "", key="D2:invalid-request-site:%s" % e.stable)
+                n7 += 1
+                ctx.chk.ob("D2", "%s: -32700 only where the line could not be parsed" % sname(e.stable), pa.entails(pc, bd.NOT(P)), "PC = %s" % pa.show(pc, 2)[:200],
+                           key="D2:parse-error-site:%s" % e.stable, loc=loc)
+            elif code == -32600:
+                n6 += 1
+                ctx.chk.ob("D2", "%s: -32600 only when jsonrpc != \"2.0\"" % sname(e.stable), pa.entails(pc, bd.AND(P, wrong)), "PC = %s" % pa.show(pc, 2)[:200],
+                           key="D2:invalid-request-site:%s" % e.stable, loc=loc)
+        ctx.chk.floor("D2", "%s: -32700 sites" % sname(e.stable), n7, 1)
+        ctx.chk.floor("D2", "%s: -32600 sites" % sname(e.stable), n6, 1)
     # unknown / reserved methods
     hm = ctx.fn(HM, "D2")
     if hm:
@@ -185,44 +192,130 @@ def d6b_socket_dispatches_the_line_just_read(ctx):
     ctx.chk.ob("D6", "what the socket handler dispatches is the trimmed line buffer", ok, "", key="D6:socket-dispatches-buffer")
 
 
+def _response_iff_id(ctx, f):
+    """For one dispatcher body: the formula under which it returns Some(..), from every store to the return place, must be
+    `line not empty & (parse failed | request has an id)` - whatever the control shape (early returns, `req.id.map(..)`, flags)."""
+    from ..ctx import ok_of
+    pa = ctx.pa(f)
+    fa = pa.fa
+    b = pa.bdd
+    st = f.stable
+    empty = pa.find(lambda a: is_call(a, name_contains="str>::is_empty"))
+    parsed = ok_of(pa, lambda x: is_call(x, name_contains="from_str"))
+    has_id = some_of(pa, lambda x: is_field(x, "id"))
+    if not empty or not parsed or not has_id:
+        ctx.chk.missing("D3", "%s: atoms `line is empty` / `from_str is Ok` / `req.id is Some`" % sname(st), "%d/%d/%d" % (len(empty), len(parsed), len(has_id)))
+        return
+    E, P, I = empty[0][1], parsed[0][1], has_id[0][1]
+    some = b.FALSE
+    n = 0
+    evaluable = True
+    det = []
+    for bi, blk in enumerate(f.blocks):
+        if blk["cleanup"] or bi not in pa.pc_in:
+            continue
+        for si, s_ in enumerate(blk["stmts"]):
+            if s_["k"] == "assign" and s_["p"]["l"] == 0 and not s_["p"]["proj"]:
+                n += 1
+                if s_["rv"]["k"] == "agg" and s_["rv"].get("vn") in ("None", "Some"):
+                    if s_["rv"]["vn"] == "Some":
+                        some = b.OR(some, pa.pc_at(bi, si))
+                else:
+                    v = strip_old(fa.val_rvalue(s_["rv"], (bi, si)))
+                    fm = _is_some_formula(pa, v)
+                    if fm is None:
+                        evaluable = False
+                        det.append("bb%d: %s" % (bi, show(v, f.names)[:80]))
+                    else:
+                        some = b.OR(some, b.AND(pa.pc_at(bi, si), fm))
+        t = blk["term"]
+        if t["k"] == "call" and t["dest"]["l"] == 0 and not t["dest"]["proj"]:
+            n += 1
+            v = strip_old(fa._val_call(t, (bi, len(blk["stmts"])), 0))
+            fm = _is_some_formula(pa, v)
+            if fm is None:
+                evaluable = False
+                det.append("bb%d: %s" % (bi, show(v, f.names)[:80]))
+            else:
+                some = b.OR(some, b.AND(pa.pc_at(bi, len(blk["stmts"])), fm))
+    ctx.chk.floor("D3", "stores to the return place of %s" % sname(st), n, 3)
+    if not evaluable:
+        ctx.chk.missing("D3", "%s: a return value whose Some-ness is not a formula" % sname(st), "; ".join(det))
+        return
+    want = b.AND(b.NOT(E), b.OR(b.NOT(P), I))
+    some = _awaits_complete(b, some)
+    ok = pa.equivalent(some, want)
+    ctx.chk.ob("D3", "%s answers exactly when the line is not empty and (it could not be parsed or the request has an id): a notification gets no response, a request gets one" % sname(st),
+               ok, "Some under %s" % pa.show(some, 3)[:300], key="D3:response-iff-id:%s" % st)
+    # a notification is still applied: every way to the return that avoids all method handlers is an empty line, a parse failure or a wrong version
+    handlers = [bb for (bb, t) in f.calls() if t["f"].get("stable") in (HM, C + "handle_subscribe", C + "handle_unsubscribe")]
+    hub_len = [bb for (bb, t) in f.calls() if t["f"].get("stable", "").endswith("SubscriptionHub::len")]
+    ver = pa.find(lambda a: is_call(a, name_contains="PartialEq") and any(x[0] == "const" and x[1] == "2.0" for x in walk(a)) and any(is_field(x, "jsonrpc") for x in walk(a)))
+    if not handlers or not ver:
+        ctx.chk.missing("D3", "%s: handler calls / the version test" % sname(st), "%d handlers, %d version atoms" % (len(handlers), len(ver)))
+        return
+    pa2 = PathA(ctx.w, f, avoid=set(handlers) | set(hub_len))
+    skip = pa2.bdd.FALSE
+    for r in ctx.cfg(f).returns:
+        if r in pa2.pc_in:
+            skip = pa2.bdd.OR(skip, pa2.pc_block(r))
+    skip = _awaits_complete(pa2.bdd, skip)
+    e2 = pa2.find(lambda a: is_call(a, name_contains="str>::is_empty"))
+    p2 = ok_of(pa2, lambda x: is_call(x, name_contains="from_str"))
+    v2 = pa2.find(lambda a: is_call(a, name_contains="PartialEq") and any(x[0] == "const" and x[1] == "2.0" for x in walk(a)) and any(is_field(x, "jsonrpc") for x in walk(a)))
+    okm = bool(e2 and p2 and v2)
+    if okm:
+        # the version atom is `ne(jsonrpc, "2.0")` or `eq(..)`: take "wrong version" as the side on which Response::err(-32600) is built - here: not (the side that reaches a handler)
+        reach = PathA(ctx.w, f)
+        okm = False
+        for wrong in (v2[0][1], pa2.bdd.NOT(v2[0][1])):
+            if pa2.entails(skip, pa2.bdd.OR(pa2.bdd.OR(e2[0][1], pa2.bdd.NOT(p2[0][1])), wrong)) and not pa2.entails(skip, pa2.bdd.OR(e2[0][1], pa2.bdd.NOT(p2[0][1]))):
+                okm = True
+    ctx.chk.ob("D3", "%s: a request that is parsed and has the right version always reaches a method handler, id or not (a notification is still applied)" % sname(st),
+               okm, "handler-free paths: %s" % pa2.show(skip, 3)[:300], key="D3:method-applied-regardless-of-id:%s" % st)
+
+
+def _awaits_complete(b, fm):
+    """Restrict a formula to the case in which every awaited future completes (`poll(..) is Ready`): whether a pending
+    handler ever completes is not this clause's subject."""
+    for vi in sorted(b.support(fm)):
+        a = b.vars[vi]
+        if isinstance(a, tuple) and a and a[0] == "is" and a[2] in ("Ready", "Pending"):
+            fm = b.restrict(fm, vi, a[2] == "Ready")
+    return fm
+
+
+def _is_some_formula(pa, v):
+    """Formula for `v is Some` for an Option value: literal variants, Option::map / and_then-free forms over a subject."""
+    b = pa.bdd
+    v = strip_old(v)
+    if v[0] == "agg" and isinstance(v[2], str):
+        if v[2].endswith("::Some"):
+            return b.TRUE
+        if v[2].endswith("::None"):
+            return b.FALSE
+    if is_call(v, name_contains="Option::<T>::map") and not is_call(v, name_contains="map_or"):
+        inner = _is_some_formula(pa, v[2][0])
+        if inner is not None:
+            return inner
+        return b.NOT(pa.is_atom(("is", strip_old(v[2][0]), "None")))
+    if v[0] in ("field", "param", "local", "var", "deref", "call"):
+        if v[0] == "call" and not (v[1].endswith("clone") or v[1].endswith("take")):
+            return None
+        if v[0] == "call":
+            return _is_some_formula(pa, v[2][0])
+        return b.NOT(pa.is_atom(("is", v, "None")))
+    return None
+
+
 def d3_one_response_iff_id(ctx):
+    for st_ in (INNER, ASYNC):
+        f_ = ctx.fn(st_, "D3")
+        if f_:
+            _response_iff_id(ctx, f_)
     f = ctx.fn(INNER, "D3")
     if not f:
         return
-    pa = ctx.pa(f)
-    fa = pa.fa
-    cfg = ctx.cfg(f)
-    b = pa.bdd
-    # None returns: direct `_0 = None` stores
-    nones = []
-    somes = []
-    for bi, blk in enumerate(f.blocks):
-        if blk["cleanup"]:
-            continue
-        for si, s in enumerate(blk["stmts"]):
-            if s["k"] == "assign" and s["p"]["l"] == 0 and not s["p"]["proj"] and s["rv"]["k"] == "agg":
-                (nones if s["rv"].get("vn") == "None" else somes).append((bi, si, s))
-    empty = pa.find(lambda a: is_call(a, name_contains="str>::is_empty"))
-    notif = [(x, pa.bdd.NOT(fm)) for (x, fm) in some_of(pa, lambda x: any(is_field(y, "id") for y in walk(x)))]
-    ok = bool(empty) and bool(notif) and len(nones) == 2
-    if ok:
-        for (bi, si, s) in nones:
-            pc = pa.pc_at(bi, si)
-            ok = ok and (pa.entails(pc, empty[0][1]) or pa.entails(pc, notif[0][1]) or
-                         any(x[0] == "var" for x in walk(notif[0][0])) and any(pa.entails(pc, fm) for (a, fm) in pa.find(lambda a: a[0] == "localbool" or a[0] == "var")))
-    ctx.chk.ob("D3", "dispatch_inner answers None only for an empty line or a notification (no id)", ok, "%d None sites" % len(nones), key="D3:none-only-empty-or-notification")
-    # the version arm returns req.id.map(..): None iff no id
-    vm = [(bb, t) for (bb, t) in f.calls() if t["f"].get("path", "").endswith("Option::<T>::map") and not t["dest"]["proj"] and t["dest"]["l"] == 0]
-    okv = len(vm) == 1 and any(is_field(x, "id") for x in walk(fa.val_operand(vm[0][1]["args"][0], (vm[0][0], len(f.blocks[vm[0][0]]["stmts"])))))
-    ctx.chk.ob("D3", "wrong version: a response iff the request has an id (req.id.map)", okv, "", key="D3:version-arm-id-map")
-    # the method is applied before the notification test
-    hm = calls_to(f, stable=HM)
-    nb = bool_branches(f, fa, lambda v: v[0] == "var" or (is_call(v, name_contains="is_none") and any(is_field(x, "id") for x in walk(v))))
-    okm = len(hm) == 1 and not cfg.in_cycle(hm[0][0])
-    if okm:
-        tests = [sb for (sb, tt, ff) in nb if cfg.dominates(hm[0][0], sb)]
-        okm = bool(tests) and all(cfg.dominates(hm[0][0], bi) for (bi, si, s) in nones if pa.entails(pa.pc_at(bi, si), b.NOT(empty[0][1]) if empty else b.TRUE) and cfg.can_reach(hm[0][0], bi))
-    ctx.chk.ob("D3", "a notification is still applied: handle_method runs before the notification test", okm, "", key="D3:method-before-notification")
     # Response constructors
     for nm, res, err in (("ok", "Some", "None"), ("err", "None", "Some")):
         g = ctx.fn(RESP + "::" + nm, "D3")
@@ -410,28 +503,6 @@ def d6_entry_points_agree(ctx):
     if not a or not b:
         return
 
-    def skeleton(f):
-        fa = ctx.fa(f)
-        seq = []
-        cfg = ctx.cfg(f)
-        order = cfg._rpo(0, cfg.succ)
-        for bb in order:
-            t = f.blocks[bb]["term"]
-            if t["k"] == "call" and "id" in t["f"]:
-                p = t["f"]["path"]
-                for key in ("str>::trim", "str>::is_empty", "serde_json::from_str", "de::from_str", "PartialEq", "Option::<T>::is_none", "Option::<T>::map", "unwrap_or", "Response::ok", "Response::err"):
-                    if key in p:
-                        seq.append(key)
-                if t["f"].get("stable") == HM:
-                    seq.append("handle_method")
-        return seq
-    sa_, sb_ = skeleton(a), skeleton(b)
-    # the async skeleton may have extra PartialEq tests (subscription method names); compare after removing those
-    core = lambda s: [x for x in s if x != "PartialEq"]
-    ctx.chk.ob("D6", "both entry points run the same pre-check / response skeleton", core(sa_) == core(sb_), "stdin %s ; socket %s" % (core(sa_), core(sb_)), key="D6:skeleton")
-    ca = sorted(c for (c, _b, _l, _h) in _error_sites(ctx, a))
-    cb = sorted(c for (c, _b, _l, _h) in _error_sites(ctx, b))
-    ctx.chk.ob("D6", "both entry points use the same error codes", ca == cb, "%s vs %s" % (ca, cb), key="D6:codes")
     # handle_method receives the same arguments; in the async path it is the fallback arm of the subscription match
     for f in (a, b):
         fa = ctx.fa(f)
